@@ -12,11 +12,12 @@ UNIT = dict(
     ),
     extract=[
         dict(id="Watcher", kind="type", src=F, name="Watcher", structural=True),
-        dict(id="WatchedPath", kind="type", src="crates/lib/src/watched_path.rs", name="WatchedPath", structural=True, drop_derive=["Clone"], add_copy=True),
+        dict(id="WatchedPath", kind="type", src="crates/lib/src/watched_path.rs", name="WatchedPath", structural=True, add_derive=["Copy"]),
         dict(id="fs::worker", kind="fn", src=F, name="worker",
-             rules=dict(pre_subst=[
-                 ("move |nev: Result<notify::Event, notify::Error>| {\n\t\t\t\t\ttrace!(event = ?nev, \"receiving possible event from watcher\");\n\t\t\t\t\tif let Err(e) = process_event(nev, config_watcher, &n_events) {\n\t\t\t\t\t\tn_errors.try_send(e).ok();\n\t\t\t\t\t}\n\t\t\t\t}", "vx_callback(n_errors, n_events, config_watcher)"),
-                 (".map(Some)?", ".vx_map_some_q()"),
+             rules=dict(for_desugar=[0, 1, 2, 3, 4, 5], pre_subst=[
+                 ("path: path.path.clone(),", "path: path.path,"),
+                 ("move |nev: Result<notify::Event, notify::Error>| {\n\t\t\t\t\tif let Err(e) = process_event(nev, config_watcher, &n_events) {\n\t\t\t\t\t\tn_errors.try_send(e).ok();\n\t\t\t\t\t}\n\t\t\t\t}", "vx_callback(n_errors, n_events, config_watcher)"),
+                 (".map(Some)?", ".vx_map_some()?"),
                  ("for path in &pathset", "for path in pathset.vx_elems()"),
                  ('panic!("BUG: watcher should exist at this point");', "vx_unreachable();"),
                  ("to_drop.push(path.clone());", "to_drop.push(*path);"),
